@@ -647,3 +647,27 @@ package logger
 //@ func init$2
 //@   modifies nothing
 //@   ensures item: typeIs(result, *[]byte) && fresh(payload(result, *[]byte)) && len(*payload(result, *[]byte)) == 0 && arr(*payload(result, *[]byte)) != nil
+
+// Panic*/Fatal*: the record is written first (same gate), then the function panics / exits
+//@ func (*Logger).Panic
+//@   requires loggerOK(l)
+//@   mayPanic
+//@   modifies region(originMem), ghostfields(held), ghostfields(owned), ghostfields(jsonLine), wN, wErr, wCalls
+//@   ensures never: false
+//@   onpanic gate: wCalls == old(wCalls) + ite(l.h.Enabled(12), 1, 0)
+//@ func (*Logger).Panicf
+//@   requires loggerOK(l)
+//@   mayPanic
+//@   modifies region(originMem), ghostfields(held), ghostfields(owned), ghostfields(jsonLine), wN, wErr, wCalls
+//@   ensures never: false
+//@   onpanic gate: wCalls == old(wCalls) + ite(l.h.Enabled(12), 1, 0)
+//@ func (*Logger).Fatal
+//@   requires loggerOK(l)
+//@   modifies region(originMem), ghostfields(held), ghostfields(owned), ghostfields(jsonLine), wN, wErr, wCalls
+//@   ensures never: false
+//@   ghost before call Exit assert gate: wCalls == old(wCalls) + ite(l.h.Enabled(16), 1, 0)
+//@ func (*Logger).Fatalf
+//@   requires loggerOK(l)
+//@   modifies region(originMem), ghostfields(held), ghostfields(owned), ghostfields(jsonLine), wN, wErr, wCalls
+//@   ensures never: false
+//@   ghost before call Exit assert gate: wCalls == old(wCalls) + ite(l.h.Enabled(16), 1, 0)
